@@ -390,7 +390,9 @@ def run(ctx):
         for fname in ("new", "add_file", "add_globs"):
             base = ctx.anchor_fn("R03.6", IF + "::" + fname)
             body = ([base] + [c for c in facts.children(base) if c.kind == "coroutine"])[-1]
-            en = pathx.Enum(interesting=lambda d: any(strip_generics(d).endswith(x) for x in ("GitignoreBuilder::add_line", "radix_trie::trie::insert")))
+            # small private helpers of IgnoreFilter (e.g. an extracted `ensure_node`) are read as part of their caller
+            hl = {k: v for k, v in pathx.helpers(facts, IF + "::", exclude=(base.def_,)).items() if getattr(v, "vis", "") != "Public" and k.split("::")[-1] not in ("new", "add_file", "add_globs", "match_path", "check_dir", "finish", "empty")}
+            en = pathx.Enum(interesting=lambda d: any(strip_generics(d).endswith(x) for x in ("GitignoreBuilder::add_line", "radix_trie::trie::insert")), inline=hl)
             ps = en.paths(thir.root(body))
             its = set()
 
